@@ -95,7 +95,22 @@ pub fn peer_message(op: &Op) -> Option<(RMsg, u32, u32)> {
             0,
         ),
         Op::OtherData { msid } => (RMsg::Data(vec![amf::s("onCuePoint"), amf::obj(vec![("a", V::Null)])]), *msid, 0),
-        Op::Ping { ts } => (RMsg::UserControl(6, vec![*ts]), 0, 0),
+        Op::Ping { ts, msid } => (RMsg::UserControl(6, vec![*ts]), *msid, 0),
+        Op::Control { kind, n, msid } => (
+            match kind {
+                0 => RMsg::Abort(*n),
+                1 => RMsg::Ack(*n),
+                2 => RMsg::SetPeerBw(*n, (*n % 3) as u8),
+                3 => RMsg::UserControl(0, vec![*n]),
+                4 => RMsg::UserControl(1, vec![*n]),
+                5 => RMsg::UserControl(2, vec![*n]),
+                6 => RMsg::UserControl(3, vec![*n, 3000]),
+                7 => RMsg::UserControl(4, vec![*n]),
+                _ => RMsg::UserControl(7, vec![*n]),
+            },
+            *msid,
+            0,
+        ),
         Op::UnknownCommand => (command("FCPublish", 3.0, V::Null, vec![amf::s("key")]), 0, 0),
         _ => return None,
     })
@@ -166,6 +181,11 @@ pub enum Sym {
     Meta(StreamSel, bool),
     OtherData(StreamSel),
     Ping,
+    /// ping request whose chunk header names the message stream of a stream selection
+    PingOn(StreamSel),
+    /// another protocol-control / user-control message carrying the id of a stream selection
+    /// (or a small number), on message stream 0 or on that stream
+    Control(u8, StreamSel),
     Unknown,
     Accept(IdSel),
     Reject(IdSel),
@@ -285,7 +305,17 @@ pub fn resolve(sym: Sym, m: &Model, rng: &mut Rng, step: usize) -> Op {
         }
         Sym::Meta(s, wf) => Op::SetDataFrame { msid: sel_stream(m, s).unwrap_or(0), well_formed: wf },
         Sym::OtherData(s) => Op::OtherData { msid: sel_stream(m, s).unwrap_or(0) },
-        Sym::Ping => Op::Ping { ts: rng.u32_boundary() },
+        Sym::Ping => Op::Ping { ts: rng.u32_boundary(), msid: 0 },
+        Sym::PingOn(sel) => Op::Ping { ts: rng.u32_boundary(), msid: sel_stream(m, sel).unwrap_or(1) },
+        Sym::Control(kind, sel) => {
+            // the number: a stream id in use, a request id outstanding, or a small number
+            let n = match rng.below(4) {
+                0 => m.outstanding.keys().next().cloned().unwrap_or(0),
+                1 => rng.below(4) as u32,
+                _ => sel_stream(m, sel).unwrap_or(1),
+            };
+            Op::Control { kind, n, msid: if rng.chance(1, 4) { sel_stream(m, sel).unwrap_or(1) } else { 0 } }
+        }
         Sym::Unknown => Op::UnknownCommand,
         Sym::Accept(i) => Op::Accept { id: sel_id(m, i) },
         Sym::Reject(i) => Op::Reject { id: sel_id(m, i) },
@@ -378,7 +408,15 @@ pub fn random_sym(rng: &mut Rng, m: &Model) -> Sym {
         16 => Sym::Meta(ss(rng), true),
         17 => Sym::Meta(ss(rng), rng.coin()),
         18 => Sym::OtherData(ss(rng)),
-        19 => Sym::Ping,
+        19 => {
+            if rng.chance(1, 3) {
+                Sym::PingOn(ss(rng))
+            } else if rng.chance(1, 2) {
+                Sym::Control(rng.below(9) as u8, ss(rng))
+            } else {
+                Sym::Ping
+            }
+        }
         20 => Sym::Unknown,
         21 | 22 => Sym::Accept(*rng.pick(&[IdSel::Oldest, IdSel::Newest, IdSel::Stale, IdSel::Never])),
         23 => Sym::Reject(*rng.pick(&[IdSel::Oldest, IdSel::Newest, IdSel::Stale, IdSel::Never])),
@@ -550,7 +588,8 @@ impl Check for C09 {
         // "many of the same" mode: one symbol repeated 129..1100 times somewhere in the walk
         // (tables with a cap, counters with a limit), then the walk goes on
         let burst: Option<(usize, usize, Sym)> = if rng.chance(1, 60) {
-            let n = *rng.pick(&[129usize, 130, 200, 257, 300, 1025, 1100]);
+            // (1 burst in 60: more than 65,536 repetitions)
+            let n = if rng.chance(1, 60) { *rng.pick(&[65_537usize, 66_000]) } else { *rng.pick(&[129usize, 130, 200, 257, 300, 1025, 1100]) };
             let sym = *rng.pick(&[
                 Sym::Publish(StreamSel::Last, ArgForm::Good),
                 Sym::Play(StreamSel::Last, ArgForm::Good),
@@ -586,7 +625,7 @@ impl Check for C09 {
         run_history(&mut it, rng, out);
     }
     fn rule(&self) -> String {
-        "histories over peer messages {connect (good / no app / non-object), createStream, publish and play (good, other key, too few, ill-typed key, bad mode, ill-typed mode; on the first, last, a deleted, a never-created stream id and stream 0), closeStream/deleteStream (same stream choices, no argument, or a number that names no stream: 2^32 + id, id - 2^32, -1, 2^32, +-1e300), audio, video, @setDataFrame+onMetaData (well formed or not), other data, ping request, unknown command} encoded by the independent encoder, and application calls {accept/reject with the oldest, newest, an already-used and a never-issued id; send audio/video/metadata; finish_playing; ping}. Random walks of 5-80 steps (1 in 40 of 200-400 steps; 1 in 60 with a burst of 129-1100 repetitions of one symbol followed by an accept of the oldest request), one third of the steps biased towards protocol progress, the rest uniform (rare orders: commands before connect, re-publish after close, second publisher, media on closed streams, second connect). Bounded exhaustive: all sequences of length 5 (thorough 6) over a 14-symbol reduced alphabet, and all sequences of length 4 (thorough 5) over a second 14-symbol alphabet (two streams, two keys, accept/reject of oldest and newest) run after the fixed prefix connect, accept, createStream, createStream. After every step events, decoded responses and Ok/Err are compared with model::server. distinct = hash of the (model state class, symbol) sequence.".to_string()
+        "histories over peer messages {connect (good / no app / non-object), createStream, publish and play (good, other key, too few, ill-typed key, bad mode, ill-typed mode; on the first, last, a deleted, a never-created stream id and stream 0), closeStream/deleteStream (same stream choices, no argument, or a number that names no stream: 2^32 + id, id - 2^32, -1, 2^32, +-1e300), audio, video, @setDataFrame+onMetaData (well formed or not), other data, ping request, unknown command} encoded by the independent encoder, and application calls {accept/reject with the oldest, newest, an already-used and a never-issued id; send audio/video/metadata; finish_playing; ping}. Random walks of 5-80 steps (1 in 40 of 200-400 steps; 1 in 60 with a burst of 129-1100 (1 in 60 of them: 65,537 or 66,000) repetitions of one symbol followed by an accept of the oldest request), one third of the steps biased towards protocol progress, the rest uniform (rare orders: commands before connect, re-publish after close, second publisher, media on closed streams, second connect). Bounded exhaustive: all sequences of length 5 (thorough 6) over a 14-symbol reduced alphabet, and all sequences of length 4 (thorough 5) over a second 14-symbol alphabet (two streams, two keys, accept/reject of oldest and newest) run after the fixed prefix connect, accept, createStream, createStream. After every step events, decoded responses and Ok/Err are compared with model::server. distinct = hash of the (model state class, symbol) sequence.".to_string()
     }
     fn assumptions(&self) -> Vec<String> {
         vec![
